@@ -33,6 +33,8 @@ type Config struct {
 	SolverLog     string // file to write the SMT transcript of worker 0 to
 	InitWhitelist []string
 	RepoPrefix    string
+	NoFastPath      bool // disable the byte-domain fast path (every decision goes to the solver)
+	CrossCheckEvery int  // cross-check every n-th fast-path verdict with the solver (0 = never)
 }
 
 // PathRecord is what is kept of a finished path.
@@ -70,6 +72,7 @@ type Result struct {
 	Obligations   int64             `json:"obligations"`
 	Discharged    int64             `json:"discharged"`
 	Decisions     int64             `json:"decisions"`
+	FastPath      int64             `json:"fast_path_decisions"` // settled by the byte-domain fast path
 	Steps         int64             `json:"steps"`
 	WallSeconds   float64           `json:"wall_s"`
 	Exhaustive    bool              `json:"exhaustive"`
@@ -112,6 +115,17 @@ type Engine struct {
 }
 
 func (e *Engine) stopped() bool { return atomic.LoadInt32(&e.stopFlag) != 0 }
+
+func (e *Engine) pastDeadline() bool {
+	if e.stopped() {
+		return true
+	}
+	if !e.cfg.Deadline.IsZero() && time.Now().After(e.cfg.Deadline) {
+		e.stop("deadline")
+		return true
+	}
+	return false
+}
 
 func (e *Engine) stop(why string) {
 	e.mu.Lock()
@@ -280,6 +294,7 @@ func (e *Engine) finish(rec PathRecord, ps *pathState) {
 	e.res.Paths++
 	atomic.AddInt64(&e.decisions, int64(ps.nDecide))
 	atomic.AddInt64(&e.steps, ps.steps)
+	e.res.FastPath += ps.fastPath
 	if rec.Outcome == "ok" {
 		e.res.AssertsHeld += ps.asserts
 	}
